@@ -121,7 +121,7 @@ REPL = ['(', ')', '=', ':', '!', '&&', '||', '|', "'", '"', '@[', ']@', '@[S]@',
         '10**5000', '-10**5000', '2.0**10000', '{}[1]', "open('/non-existing')", 'next(iter(()))', '[][0]', '1<<(1<<20)<<0 if 0 else 1<<70', "int('9'*5000)",
         '@[DEEP]@', '@[DEEPP]@',
         # empty strings where a pattern / name is wanted; an integer beyond float range (a timeout is handed to the OS as a float); a NUL character
-        "''", '""', '10**400', '-10**400', 'a\x00b', '\x00',
+        "''", '""', '.', './', '10**400', '-10**400', 'a\x00b', '\x00',
         # integer expressions that try to end the interpreter
         'exit(0)', 'exit(3)', 'quit()', "__import__('sys').exit(7)",
         # values that depend on the directory structure: they can only be validated after the sandbox exists (or after the home directories are known)
